@@ -280,7 +280,7 @@ func checkC14(tier, replay string) int {
 	ctx.Cov["round_trips"] = roundTrips
 	ctx.Cov["rule"] = "A: all 2^letters ASCII case variants of the 7 action and 8 operation names must parse to the exact constant; all single-edit mutants (delete / substitute / insert over a-z, '_', blank, tab, '-', NUL, dotless i, Kelvin sign, long s) of every name in lower and upper case, pair concatenations and a list of look-alikes must be rejected (three-valued where a string equals a name only under Unicode folding); printed forms parse back. B: every policy of S1 (<=2 groups), S3 (<=2 entries, <=2 conditions) and S2 (8 ops x 6 argument indices x operand alphabet x all named actions) is rendered by an independent emitter (documented keys, decimal/hex operands, varied letter case), by yaml.Marshal and by json.Marshal of the library structs, read back through ucfg/yaml + Unpack exactly as cmd/sandbox does, and must compile to the identical program (or both be rejected); non-trivial = distinct policies round-tripped"
 	ctx.Assumptions = []string{"ucfg/yaml.NewConfig + Unpack into struct{Seccomp Policy} is the documented configuration path (cmd/sandbox parsePolicy)", "JSON text is fed to the same YAML loader (JSON is a YAML subset); ucfg's separate JSON loader is not on the documented path"}
-	return ctx.Finish()
+	return finishOrReplay(ctx, replay)
 }
 
 func clip(s string, n int) string {
